@@ -226,19 +226,24 @@ static void restrict_case(unsigned long set, unsigned long flags)
     else if (hwloc__obj_type_is_normal(A.type[k])) {
       /* a normal object goes only when no PU and no NUMA node is left below it (the seeds have no mergeable level) */
       int keeps = ((A.c[k] & ~dropc) != 0) || ((A.nd[k] & ~dropn) != 0 && !(A.c[k]));
-      if ((A.c[k] & ~dropc) != 0) VP_CHECK(still, "restrict: a normal object that keeps a PU survives");
+      if ((A.c[k] & ~dropc) != 0 && A.type[k] != HWLOC_OBJ_GROUP) VP_CHECK(still, "restrict: a normal object that keeps a PU survives (a Group may be merged away when its level became redundant)");
       if (!(A.c[k] & ~dropc) && !bynode) { int mem_below = 0; for (unsigned j = 0; j < A.n && j < MAXO; j++) if (A.type[j] == HWLOC_OBJ_NUMANODE && A.parent_gp[j] == A.gp[k] && !(A.nd[j] & dropn)) mem_below = 1;
         if (!mem_below) VP_CHECK(!still || k == 0, "restrict: a normal object left with no PU and no NUMA node is removed"); }
       (void) keeps;
     } else if (A.type[k] == HWLOC_OBJ_MISC || hwloc__obj_type_is_io(A.type[k])) {
-      /* special objects: kept when their (transitive) normal ancestor survives; otherwise dropped, or adopted by a surviving ancestor with the ADAPT flags */
-      uint64_t pg = A.parent_gp[k]; int hops = 0, anc_alive = 0, direct = 1;
-      while (hops++ < 6) { int pk = snap_find(&A, pg); if (pk < 0) break; if (hwloc__obj_type_is_normal(A.type[pk])) { anc_alive = snap_find(&B, A.gp[pk]) >= 0; break; } pg = A.parent_gp[pk]; direct = 0; }
-      (void) direct;
-      if (anc_alive) VP_CHECK(still, "restrict: Misc and I/O objects below a surviving object are never lost");
+      /* special objects: never lost while every ancestor survives (an ancestor that is merged away because its level became redundant
+       * hands its children to the object that replaces it); below a REMOVED ancestor they are dropped, or adopted by a surviving ancestor
+       * with the ADAPT flags */
+      uint64_t pg = A.parent_gp[k]; int hops = 0, removed_anc = 0;
+      while (hops++ < 8) { int pk = snap_find(&A, pg); if (pk < 0) break;
+        int gone = snap_find(&B, A.gp[pk]) < 0;
+        int merged = gone && A.type[pk] == HWLOC_OBJ_GROUP && (A.c[pk] & ~dropc) != 0;      /* a Group that keeps PUs can only disappear by being merged */
+        if (gone && !merged) removed_anc = 1;
+        if (!A.parent_gp[pk] && pk == 0) break; pg = A.parent_gp[pk]; if (pk == 0) break; }
+      if (!removed_anc) VP_CHECK(still, "restrict: Misc and I/O objects whose ancestors all survive are never lost");
       else if (A.type[k] == HWLOC_OBJ_MISC) VP_CHECK(still == ((flags & HWLOC_RESTRICT_FLAG_ADAPT_MISC) != 0), "restrict: Misc children of a removed object are dropped, or re-attached with ADAPT_MISC");
       else VP_CHECK(still == ((flags & HWLOC_RESTRICT_FLAG_ADAPT_IO) != 0), "restrict: I/O children of a removed object are dropped, or re-attached with ADAPT_IO");
-      if (still && !anc_alive) { int bi = snap_find(&B, A.gp[k]); uint64_t np = B.parent_gp[bi]; int hop2 = 0, is_anc = 0; uint64_t g = A.parent_gp[k];
+      if (still && removed_anc) { int bi = snap_find(&B, A.gp[k]); uint64_t np = B.parent_gp[bi]; int hop2 = 0, is_anc = 0; uint64_t g = A.parent_gp[k];
         while (hop2++ < 8) { if (g == np) { is_anc = 1; break; } int pk = snap_find(&A, g); if (pk < 0) break; g = A.parent_gp[pk]; }
         if (A.type[k] == HWLOC_OBJ_MISC || A.type[k] == HWLOC_OBJ_BRIDGE) VP_CHECK(is_anc, "restrict: an adopted Misc/I/O subtree hangs below a surviving ancestor of its old parent"); }
     }
@@ -256,7 +261,7 @@ VP_HARNESS(h_restrict_enum)
 #else
   static const unsigned long nsets[4] = { 0x1, 0x2, 0x3, 0x4 };
 #endif
-  static const unsigned long nflags[3] = { HWLOC_RESTRICT_FLAG_BYNODESET, HWLOC_RESTRICT_FLAG_BYNODESET | HWLOC_RESTRICT_FLAG_REMOVE_MEMLESS | HWLOC_RESTRICT_FLAG_ADAPT_MISC | HWLOC_RESTRICT_FLAG_ADAPT_IO, HWLOC_RESTRICT_FLAG_BYNODESET | HWLOC_RESTRICT_FLAG_REMOVE_MEMLESS };
+  static const unsigned long nflags[3] = { HWLOC_RESTRICT_FLAG_BYNODESET, HWLOC_RESTRICT_FLAG_BYNODESET | HWLOC_RESTRICT_FLAG_ADAPT_MISC | HWLOC_RESTRICT_FLAG_ADAPT_IO, HWLOC_RESTRICT_FLAG_BYNODESET | HWLOC_RESTRICT_FLAG_REMOVE_MEMLESS | HWLOC_RESTRICT_FLAG_ADAPT_MISC };
   unsigned si = (unsigned) vp_in_range(0, 16), fi = (unsigned) vp_in_range(0, 3), mode = (unsigned) vp_in_range(0, 1);
   unsigned ci = 0;
   for (unsigned f = 0; f < NFL; f++) for (unsigned k = 0; k < 17; k++) if ((ci++ % NSLICE) == SLICE && mode == 0 && si == k && fi == f) restrict_case(csets[k], cflags[f]);
